@@ -25,8 +25,16 @@ def anchors():
     if _anchors is None:
         here = os.path.dirname(os.path.dirname(os.path.abspath(__file__)))
         words = set()
+        import tokenize
         for p in glob.glob(os.path.join(here, 'rules', '*.py')):
-            words |= set(re.findall(r'[A-Za-z_][A-Za-z0-9_]*', open(p).read()))
+            # identifiers of the rule code and of string literals that are names (no blank inside); prose - rule descriptions and
+            # messages - is not a place a function is looked up by, and its words ("fail", "copy", ...) must not pin helpers
+            with open(p, 'rb') as fh:
+                for tok in tokenize.tokenize(fh.readline):
+                    if tok.type == tokenize.NAME:
+                        words.add(tok.string)
+                    elif tok.type == tokenize.STRING and ' ' not in tok.string.strip('rbuRBU').strip('\'"'):
+                        words |= set(re.findall(r'[A-Za-z_][A-Za-z0-9_]*', tok.string))
         _anchors = words
     return _anchors
 
